@@ -146,6 +146,96 @@ def h_markers_of_removed_parents(ctx, case):
     return res[0][0]
 
 
+def _sc_setup(case, mode):
+    from harness import stagechecks as SC
+    SC.setup(case, mode)
+
+
+def h_run_mapping_reduced(ctx, case):
+    """through the real run_mapping on real files: dropping a level ==
+    mapping against a reference whose taxonomy never had it; flattening
+    == a one-level taxonomy with the union of all marker lists; dropping
+    an unknown level changes nothing.  Marker tables are thinned so that
+    the ancestor fallback is exercised."""
+    import json
+    from harness import stage as ST
+    from harness import stagechecks as SC
+    inp = SC.inputs(case)
+    kind = ctx.choice('reduction', 4)   # drop class, drop subclass, flatten, unknown
+    # marker table: each non-root entry kept, emptied or removed
+    table = {}
+    for k, v in ST.MARKERS.items():
+        if k == 'None':
+            table[k] = list(v)
+            continue
+        c = ctx.choice(f"table[{k}]", 3)
+        if c == 0:
+            table[k] = list(v)
+        elif c == 1:
+            table[k] = ['g6']           # in the reference, not in the query
+    mk = inp.markers_file(table, 'thin')
+    min_markers = case.get('min_markers', 2)
+    common = dict(bootstrap_iteration=5, min_markers=min_markers,
+                  bootstrap_factor=case.get('factor', 0.5))
+    w1, w2 = ST.new_work('a'), ST.new_work('b')
+    cfg1 = ST.make_config(inp, w1, **common)
+    cfg1['query_markers'] = {'serialized_lookup': mk}
+    cfg2 = ST.make_config(inp, w2, **common)
+    if kind in (0, 1):
+        lv = ['class', 'subclass'][kind]
+        cfg1['drop_level'] = lv
+        red = ST.tree_data(True, drop=lv)
+        cfg2['precomputed_stats'] = {'path': inp.stats_for(red, f'no_{lv}')}
+        pruned = {k: v for k, v in table.items()
+                  if not k.startswith(lv + '/')}
+        cfg2['query_markers'] = {'serialized_lookup':
+                                 inp.markers_file(pruned, 'pruned')}
+        keep = [x for x in ST.LEVELS if x != lv]
+    elif kind == 2:
+        cfg1['flatten'] = True
+        red = ST.tree_data(True, flat=True)
+        cfg2['precomputed_stats'] = {'path': inp.stats_for(red, 'flat')}
+        union = sorted({g for v in table.values() for g in v})
+        cfg2['query_markers'] = {'serialized_lookup':
+                                 inp.markers_file({'None': union}, 'union')}
+        keep = ['cluster']
+    else:
+        # not a level: unrelated, or a prefix / extension of a level name
+        unk = ['not_a_level', 'sub', 'cl', 'class/', 'subclas']
+        cfg1['drop_level'] = unk[ctx.choice('unknown_level', len(unk))]
+        cfg2['query_markers'] = {'serialized_lookup': mk}
+        keep = list(ST.LEVELS)
+    r1, r2 = ST.run(cfg1), ST.run(cfg2)
+    e1, e2 = r1['raised'], r2['raised']
+    ctx.check((e1 is None) == (e2 is None),
+              f'both runs succeed or both fail: {str(e1)[:60]} / '
+              f'{str(e2)[:60]}')
+    if e1 is None and e2 is None:
+        ctx.reach('both mapped')
+        a, b = r1['json']['results'], r2['json']['results']
+        for x, y in zip(a, b):
+            ctx.check(x['cell_id'] == y['cell_id'], 'same cells')
+            for lv in keep:
+                ctx.check(x[lv] == y[lv], f'level {lv}: result with the '
+                          'reduction == result on the reduced taxonomy')
+            for li, lv in enumerate(ST.LEVELS):
+                if lv in keep:
+                    continue
+                below = [z for z in ST.LEVELS[li + 1:] if z in keep][0]
+                anc = inp.tree.parents(below, x[below]['assignment'])[lv]
+                ctx.check(x[lv]['assignment'] == anc and
+                          x[lv]['directly_assigned'] is False,
+                          'removed level == ancestor of the finer '
+                          'assignment, flagged as inferred')
+        ctx.check(r1['json']['marker_genes'] == r2['json']['marker_genes']
+                  if kind != 3 else True,
+                  'same markers used with the reduction and on the reduced '
+                  'taxonomy')
+    ST.drop_work(w1)
+    ST.drop_work(w2)
+    return 'ok' if e1 is None else 'error'
+
+
 HARNESSES = [
     Harness('reduction_equivalence', h_equivalence, setup=LL.setup,
             cases=[{'sizes': s} for s in ([2, 3], [1, 2, 3], [2, 2, 3])]
@@ -163,6 +253,23 @@ HARNESSES = [
                    'vote oracle keyed by (cell, parent, leaf)',
             outside='the _run_mapping sequence itself (mapping-stage '
                     'harness)', expect_reach=['mapped twice'], split=48),
+    Harness('run_mapping_reduced_taxonomy', h_run_mapping_reduced,
+            setup=_sc_setup, cases=[{}],
+            thorough_cases=[{}, {'min_markers': 1, 'factor': 1.0},
+                            {'min_markers': 3}],
+            funcs=['from_specified_markers.run_mapping', '_run_mapping',
+                   'TaxonomyTree.drop_level/flatten/backfill_assignments',
+                   'marker_cache_v2.create_marker_cache_from_specified_'
+                   'markers', 'validate_marker_lookup',
+                   'election_runner.run_type_assignment_on_h5ad'],
+            stubs=['multiprocessing -> model (workers inline)'],
+            bounds='fixed 3-level taxonomy and query (real files); '
+                   'reduction: drop class / drop subclass / flatten / drop '
+                   'of an unknown level; every thinning of the marker '
+                   'table (each non-root entry kept / useless / absent); '
+                   'min_markers 1-2; bootstrap factor 0.5 or 1 with a '
+                   'common seed',
+            expect_reach=['both mapped'], split=32),
     Harness('markers_of_removed_parents', h_markers_of_removed_parents,
             setup=setup_markers,
             cases=[{'sizes': [2, 3], 'genes': 2},
